@@ -45,6 +45,7 @@ pub fn main(args: &Args) -> i32 {
         clear_pending: 2,
         restart: 2,
         side: 6,
+        reinvite: true,
         ..Weights::default()
     };
     let spec = Spec {
